@@ -441,7 +441,7 @@ def gen(ctx):
 
 
 def run(ctx):
-    ok = ctx.build(['props/C08.vo', 'run/HistoryRun.vo', 'run/HistoryStyle.vo', 'proofs/HistoryWorlds.vo'])
+    ok = ctx.build(['props/C08.vo', 'run/HistoryRun.vo', 'run/HistoryStyle.vo', 'proofs/HistoryWorlds.vo', 'proofs/HistoryFull.vo'])
     if ok:
         ctx.obligations('props/C08.v')
     model = ctx.model('history') if ok else None
@@ -572,7 +572,16 @@ def run(ctx):
                                  'history-over-stylesheet-pipeline-model': scorr}
     ctx.cov['additional_theorems'] = ['proofs/HistoryWorlds.v css_history_is_expand_css: through any cache dict, after any history, the '
                                       'history model over the stylesheet pipeline model returns what the cache-less expand_css returns '
-                                      '(compiled with the build; depends on the kernel PrimFloat primitives only)']
+                                      '(compiled with the build; depends on the kernel PrimFloat primitives only)',
+                                      'proofs/HistoryFull.v full_markup_probe / full_css_probe: ONE history state machine over both real '
+                                      'pipeline models (markup parts = the world of C08_markup_history_is_expand_markup, stylesheet parts = '
+                                      'the stylesheet model): after any history a markup probe = expand_markup_str of the caller\'s '
+                                      'configuration and a stylesheet probe = expand_css (compiled with the build; PrimFloat primitives only)']
+    ctx.cov['model_link'] = ('C08_markup_history_is_expand_markup: the world executed by the second tie (HistoryRun.mk_world, command 2) is '
+                             'proved to return expand_markup_str of the caller\'s configuration after any history (mk_world_is, by '
+                             'reflexivity, + C08_executed_world_is_expand_markup); C08_state_size_bounded / C08_cache_entry_origin: the '
+                             'model-level reading of "keeps no per-call data alive" (state size bounded by the number of cache dicts the '
+                             'caller shares, independent of the history length; a cache dict holds the table of ONE call).')
     # the fork server's "fresh state" is re-checked against really fresh interpreters
     n_once = 24 if ctx.tier == 'quick' else 200
     picks = []
